@@ -4,6 +4,7 @@ import (
 	"go/ast"
 	"go/constant"
 	"go/types"
+	"golang.org/x/tools/go/ssa"
 
 	"golang.org/x/tools/go/packages"
 )
@@ -71,4 +72,27 @@ func constantInt64(v constant.Value) (int64, bool) {
 
 func constantBool(v constant.Value) bool {
 	return v.Kind() == constant.Bool && constant.BoolVal(v)
+}
+
+func absintFieldName(fa *ssa.FieldAddr) string {
+	t := fa.X.Type()
+	if p, ok := t.Underlying().(*types.Pointer); ok {
+		t = p.Elem()
+	}
+	if s, ok := t.Underlying().(*types.Struct); ok && fa.Field < s.NumFields() {
+		return s.Field(fa.Field).Name()
+	}
+	return ""
+}
+
+func isZeroConst(v ssa.Value) bool {
+	c, ok := v.(*ssa.Const)
+	if !ok || c.Value == nil {
+		return false
+	}
+	if c.Value.Kind() == constant.Int {
+		n, ok := constant.Int64Val(c.Value)
+		return ok && n == 0
+	}
+	return false
 }
